@@ -14,6 +14,7 @@ pub mod s_dp;
 pub mod s_dpagg;
 pub mod s_pup;
 pub mod s_reltree;
+pub mod s_tau;
 pub mod s_fn;
 pub mod s_inj;
 pub mod s_filter;
@@ -70,6 +71,7 @@ fn streams() -> Vec<(&'static str, GenFn, EvalFn)> {
         ("dpagg", s_dpagg::gen, s_dpagg::eval),
         ("pup", s_pup::gen, s_pup::eval),
         ("reltree", s_reltree::gen, s_reltree::eval),
+        ("taukeys", s_tau::gen, s_tau::eval),
     ]
 }
 
